@@ -81,10 +81,9 @@ class FCISolverPySCF(ElectronicStructureSolver):
             self.cisolver = fci.direct_spin1.FCI()
         else:
             self.cas = False
-            if self.spin == 0:
-                self.cisolver = fci.direct_spin0.FCI(molecule.mean_field.mol)
-            else:
-                self.cisolver = fci.direct_spin1.FCI()
+            # direct_spin0 only searches singlet (spin-symmetric) CI vectors: the lowest state of the (n_alpha, n_beta)
+            # sector can be the Sz=0 component of a triplet, which the frozen-orbital branch above does find.
+            self.cisolver = fci.direct_spin1.FCI()
 
         self.cisolver.verbose = 0
         self.mean_field = molecule.mean_field
